@@ -370,20 +370,52 @@ func ruleMergePredicate(c *Ctx) {
 		info := pk.TypesInfo
 		key := "bellatrix." + w.fn
 		defs := singleDefs(info, fd.Body)
-		// the last return's first result
+		// the return that computes the answer (the others give a constant or pass an error on), wherever it stands
 		var last *ast.ReturnStmt
-		for _, st := range fd.Body.List {
-			if r, ok := st.(*ast.ReturnStmt); ok {
+		nCmp := 0
+		var be *ast.BinaryExpr
+		ast.Inspect(fd.Body, func(n ast.Node) bool {
+			if _, ok := n.(*ast.FuncLit); ok {
+				return false
+			}
+			r, ok := n.(*ast.ReturnStmt)
+			if !ok || len(r.Results) < 1 {
+				return true
+			}
+			e := ast.Unparen(resolveLocal(info, r.Results[0], defs, 3))
+			neg := false
+			for {
+				u, ok := e.(*ast.UnaryExpr)
+				if !ok || u.Op != token.NOT {
+					break
+				}
+				neg = !neg
+				e = ast.Unparen(u.X)
+			}
+			if tv, ok := info.Types[r.Results[0]]; ok && tv.Value != nil {
+				return true // constant answer
+			}
+			if b, ok := e.(*ast.BinaryExpr); ok && (b.Op == token.NEQ || b.Op == token.EQL) {
+				nCmp++
+				last = r
+				op := b.Op
+				if neg {
+					op = negOp[op]
+				}
+				be = &ast.BinaryExpr{X: b.X, Y: b.Y, Op: op, OpPos: b.OpPos}
+				return true
+			}
+			if last == nil {
 				last = r
 			}
-		}
-		if last == nil || len(last.Results) < 1 {
-			c.unm(key, fd.Pos(), "no final return")
+			return true
+		})
+		if last == nil {
+			c.unm(key, fd.Pos(), "no return")
 			continue
 		}
-		be, ok := ast.Unparen(last.Results[0]).(*ast.BinaryExpr)
-		if !ok || be.Op != token.NEQ {
-			c.bad(key, last.Pos(), "%s does not end in `<root of the object> != <root of the default object>`", w.fn)
+		if be == nil || nCmp != 1 || be.Op != token.NEQ {
+			c.bad(key, last.Pos(), "%s does not answer with `<root of the object> != <root of the default object>`", w.fn)
 			continue
 		}
 		isWholeRoot := func(e ast.Expr) bool {
